@@ -169,8 +169,12 @@ func c03Cases(tier string, seed int64) []core.Case {
 	for _, ms := range []uint32{256, 1024, 8192} {
 		ms := ms
 		cases = append(cases, core.Case{ID: fmt.Sprintf("held-payload/msize=%d", ms), Run: func(ctx *core.Ctx) core.Result {
-			return c03HeldPayload(ctx, ms != 1024, ms)
+			return c03HeldPayload(ctx, "C03", ms != 1024, ms)
 		}})
+	}
+	for _, dotu := range []bool{true, false} {
+		dotu := dotu
+		cases = append(cases, core.Case{ID: fmt.Sprintf("error-texts-around-msize/dotu=%v", dotu), Run: func(ctx *core.Ctx) core.Result { return c03LongErrors(ctx, dotu) }})
 	}
 	for _, dotu := range []bool{true, false} {
 		dotu := dotu
@@ -182,6 +186,92 @@ func c03Cases(tier string, seed int64) []core.Case {
 	}
 	cases = append(cases, sharedFlushCases("C03", tier)...)
 	return cases
+}
+
+// c03LongErrors: the implementation answers with error texts one byte shorter than, exactly as long as, and longer than
+// what an Rerror of the negotiated msize can carry, between ordinary answers with distinct contents (so that the reply
+// buffers are recycled ones). Every request gets its own reply: the Rerror carries the text the implementation gave,
+// cut to fit at most, never the contents of an earlier reply.
+func c03LongErrors(ctx *core.Ctx, dotu bool) core.Result {
+	var res core.Result
+	ver := "9P2000"
+	if dotu {
+		ver = "9P2000.u"
+	}
+	for _, ask := range []uint32{256, 1024, 8192, 1 << 17} {
+		ctx.Beat()
+		s := NewSess(Config{Dotu: dotu, Msize: 1 << 17})
+		c := s.Dial()
+		rv, err := c.Version(ask, ver, W)
+		if err != nil || rv.Msg == nil || rv.Msg.Type != wire.Rversion {
+			res.Inconclusive = "c03 errors: version failed"
+			c.Hangup()
+			return res
+		}
+		msize := int(rv.Msg.Msize)
+		budget := msize - (4 + 1 + 2 + 2)
+		if dotu {
+			budget -= 4
+		}
+		if budget > 65535 {
+			budget = 65535 // (a string of the protocol has a 16-bit length)
+		}
+		tag := uint16(0)
+		if a, err := c.Rpc(&wire.Msg{Type: wire.Tattach, Tag: 900, Fid: 1, Afid: wire.NOFID, Uname: "root", Nuname: 0}, W); err != nil || a.Msg == nil || a.Msg.Type != wire.Rattach {
+			res.Inconclusive = "c03 errors: attach failed"
+			c.Hangup()
+			return res
+		}
+		lens := []int{budget - 1, budget, budget + 1, budget, 3 * msize, budget - 2, 1, budget}
+		if msize > 70000 {
+			lens = []int{65534, 65535, 65536, 70000, 65535 + 4096, 1}
+		}
+		for round, n := range lens {
+			// an ordinary answer first: its buffer is the one the error is packed into next
+			tag++
+			if st, err := c.Rpc(&wire.Msg{Type: wire.Tstat, Tag: tag, Fid: 1}, W); err != nil || st.Msg == nil || st.Msg.Type != wire.Rstat {
+				res.Inconclusive = "c03 errors: plain stat failed"
+				c.Hangup()
+				return res
+			}
+			tag++
+			text := fmt.Sprintf("E%d-%d:", round, n) + strings.Repeat(string(rune('a'+round)), n)
+			text = text[:n]
+			p := script.NewPlan()
+			p.Err, p.Errnum = text, uint32(70+round)
+			s.Ops.SetPlan(c.ID, tag, p)
+			rp, err := c.Rpc(&wire.Msg{Type: wire.Tstat, Tag: tag, Fid: 1}, W)
+			res.Evals++
+			det := map[string]interface{}{"msize": msize, "error_text_bytes": n, "largest_text_that_fits": budget, "dotu": dotu}
+			switch {
+			case err != nil || rp.Msg == nil:
+				res.Violate("C03;long-error;no-reply", fmt.Sprintf("an answer with an error text of %d bytes (an Rerror of msize %d carries %d) got no reply", n, msize, budget), det)
+			case rp.Msg.Type != wire.Rerror:
+				res.Violate("C03;long-error;not-the-answer", fmt.Sprintf("the implementation answered with an error text of %d bytes (an Rerror of msize %d carries %d); the reply is %s", n, msize, budget, rp.Msg.String()), det)
+			case !strings.HasPrefix(text, rp.Msg.Ename) || (len(rp.Msg.Ename) < n && len(rp.Msg.Ename) < budget-8):
+				res.Violate("C03;long-error;text", fmt.Sprintf("error text of %d bytes arrived as %d bytes %q…", n, len(rp.Msg.Ename), head(rp.Msg.Ename)), det)
+			case len(rp.Raw) > msize:
+				res.Violate("C03;long-error;oversize", fmt.Sprintf("the Rerror is %d bytes long, msize is %d", len(rp.Raw), msize), det)
+			}
+			res.Sig(fmt.Sprintf("long-error|%v|%d|%d", dotu, msize, n-budget))
+			if len(res.Violations) > 0 {
+				break
+			}
+		}
+		c.Hangup()
+		if len(res.Violations) > 0 {
+			break
+		}
+	}
+	res.Sample(map[string]interface{}{"scenario": "error texts of budget-1, budget, budget+1, 3*msize bytes between ordinary answers", "dotu": dotu})
+	return res
+}
+
+func head(s string) string {
+	if len(s) > 24 {
+		return s[:24]
+	}
+	return s
 }
 
 // c03VersionTagged: a Tversion is a request like any other as far as replies go: sent under an ordinary tag (clients
@@ -1392,7 +1482,7 @@ func hexn(b []byte) string {
 // many times the server's receive buffer passes by, each request a whole segment of its own, so that the buffer runs
 // out on message boundaries — and is answered at last: what the implementation then finds in its request is still the
 // payload that was sent under that tag, and every filler got its own answer.
-func c03HeldPayload(ctx *core.Ctx, dotu bool, msize uint32) core.Result {
+func c03HeldPayload(ctx *core.Ctx, prop string, dotu bool, msize uint32) core.Result {
 	var res core.Result
 	s := NewSess(Config{Dotu: dotu, Msize: msize})
 	c := s.Dial()
@@ -1473,7 +1563,7 @@ func c03HeldPayload(ctx *core.Ctx, dotu bool, msize uint32) core.Result {
 			res.Evals++
 			fill++
 			if rp == nil || rp.Type != wire.Rwrite || rp.Count != uint32(n) {
-				res.Violate("C03;held-payload;filler-answer", fmt.Sprintf("filler write %d of %d bytes behind %d held writes was answered %v", fill, n, nheld, rp), nil)
+				res.Violate(prop+";held-payload;filler-answer", fmt.Sprintf("filler write %d of %d bytes behind %d held writes was answered %v", fill, n, nheld, rp), nil)
 				break
 			}
 			sent += n + 23
@@ -1484,7 +1574,7 @@ func c03HeldPayload(ctx *core.Ctx, dotu bool, msize uint32) core.Result {
 		for _, h := range hs {
 			rp, err := c.WaitTag(h.m.Tag, W)
 			if err != nil || rp.Msg == nil || rp.Msg.Type != wire.Rwrite || rp.Msg.Count != h.m.Count {
-				res.Violate("C03;held-payload;reply", fmt.Sprintf("a write held while %d bytes of other requests passed was answered %v", sent, rp), nil)
+				res.Violate(prop+";held-payload;reply", fmt.Sprintf("a write held while %d bytes of other requests passed was answered %v", sent, rp), nil)
 			}
 		}
 		c.Quiesce(W)
@@ -1497,7 +1587,7 @@ func c03HeldPayload(ctx *core.Ctx, dotu bool, msize uint32) core.Result {
 		for i, h := range hs {
 			want := script.HashBytes(h.m.Data)
 			if got, ok := late[h.m.Tag]; ok && got != want {
-				res.Violate("C03;held-payload;payload-changed", fmt.Sprintf("held write %d of %d (msize %d): when the implementation answered, after %d bytes of later requests, its request no longer carried the %d bytes sent under its tag (digest %s, sent %s)", i, nheld, msize, sent, len(h.m.Data), got, want), map[string]interface{}{"msize": msize, "dotu": dotu, "round": round})
+				res.Violate(prop+";held-payload;payload-changed", fmt.Sprintf("held write %d of %d (msize %d): when the implementation answered, after %d bytes of later requests, its request no longer carried the %d bytes sent under its tag (digest %s, sent %s)", i, nheld, msize, sent, len(h.m.Data), got, want), map[string]interface{}{"msize": msize, "dotu": dotu, "round": round})
 			}
 		}
 		res.Sig(fmt.Sprintf("held-payload|%v|%d|%d|%d", dotu, msize, nheld, round%3))
